@@ -170,7 +170,7 @@ pub fn large_cases(a: &Args, rep: &mut Report, label: &str, quick: &[usize], tho
     let mut szs: &[usize] = if a.tier == "thorough" { thorough } else { quick };
     // the build without rayon constructs every cell on one thread: its quick leg takes the first size only, its thorough leg
     // the first two
-    if a.leg.as_deref() == Some("norayon") {
+    if a.leg.as_deref() == Some("norayon") || a.leg.as_deref() == Some("relcheck") {
         szs = &szs[..if a.tier == "thorough" { 2 } else { 1 }];
     }
     let make = |k: u64| {
